@@ -373,6 +373,91 @@ fn can_pack(message_size: usize, add: usize, mtu: usize) -> bool {
     (dangling > 0) && ((dangling + add) <= mtu)
 }
 
+/// Verification hooks: thin wrappers exposing crate-private packing logic to the external harness.
+#[cfg(feature = "verif_hooks")]
+pub mod verif {
+    use super::*;
+
+    /// Calls the private [`can_pack`].
+    pub fn can_pack(message_size: usize, add: usize, mtu: usize) -> bool {
+        super::can_pack(message_size, add, mtu)
+    }
+
+    /// Runs [`Mutations::send`] on synthetic entities like the `splitting` unit test does.
+    ///
+    /// Each entity is given as `(entity_bytes, component_bytes)`. Returns for every produced message
+    /// its length in bytes and the entities (numbered in writing order) it contains.
+    pub fn mutations_split(
+        related: &[Vec<(usize, usize)>],
+        standalone: &[(usize, usize)],
+        track_mutate_messages: bool,
+        max_size: usize,
+    ) -> Vec<(usize, Vec<usize>)> {
+        let mut serialized = SerializedData::default();
+        let mut server = RepliconServer::default();
+        server.set_running(true);
+        let mut mutations = Mutations::default();
+        mutations.resize_related(related.len());
+
+        let mut tag = 0u32;
+        let mut write = |mutations: &mut Mutations,
+                         serialized: &mut SerializedData,
+                         graph_index: Option<usize>,
+                         (entity_size, components_size): (usize, usize)| {
+            let start = serialized.len();
+            serialized.resize(start + entity_size + components_size, 0);
+            let entity_end = start + entity_size;
+            mutations.start_entity();
+            mutations.add_entity(
+                Entity::from_raw(tag),
+                graph_index,
+                start..entity_end,
+            );
+            mutations.add_component(entity_end..serialized.len());
+            tag += 1;
+        };
+        for (index, entities) in related.iter().enumerate() {
+            for &sizes in entities {
+                write(&mut mutations, &mut serialized, Some(index), sizes);
+            }
+        }
+        for &sizes in standalone {
+            write(&mut mutations, &mut serialized, None, sizes);
+        }
+
+        let mut ticks = ClientTicks::default();
+        mutations
+            .send(
+                &mut server,
+                Entity::PLACEHOLDER,
+                &mut ticks,
+                &mut Default::default(),
+                &serialized,
+                track_mutate_messages,
+                Default::default(),
+                Default::default(),
+                Default::default(),
+                max_size,
+            )
+            .unwrap();
+
+        let chunks = EntityChunks::new(&mutations.related, &mutations.standalone);
+        let sent: Vec<_> = server.drain_sent().collect();
+        mutations
+            .messages
+            .iter()
+            .zip(sent)
+            .map(|((_, _, range), (_, _, message))| {
+                let entities = chunks
+                    .iter_flatten(range.clone())
+                    .map(|m| m.entity.index() as usize)
+                    .collect();
+                (message.len(), entities)
+            })
+            .collect()
+    }
+}
+
 #[cfg(test)]
 mod tests {
     use super::*;
